@@ -215,3 +215,167 @@ def payload_set(d, rng, per_field_classes=True, n_random=3):
             for nm, raw in raw_classes(f, rng).items():
                 out.append((f"f{i}:{nm}", compose(d, rng, {i: raw})))
     return out
+
+
+# ------------------------------------------------------------------ variable-layout definitions (C01, end to end)
+# payloads for what the fixed-layout classes never reach: both STRING_LAU encodings, byte-order marks, zero-length strings,
+# length bytes below 2 or pointing past the end of the payload, payloads that end before a field, BitLengthField values
+# 0 / not a multiple of 8 / not available, INDIRECT_LOOKUP pairs inside and outside the table.
+LAU_KINDS = ("ascii", "utf16", "utf16bom", "utf16be", "utf16odd", "empty1", "empty0", "n0", "n1", "past", "past0",
+             "enc2", "nul", "invalid", "absent")
+LZ_KINDS = ("text", "zero", "past", "noterm", "invalid", "absent")
+U16_TEXTS = ["wórld", "µΩ €", "Zürich", "A", "\ufeffB", "\u4e2d\u6587", "\x00x"]
+
+
+def is_var_layout(d) -> bool:
+    return any("BitOffset" not in f or "BitLength" not in f or f["FieldType"] in ("INDIRECT_LOOKUP", "STRING_LZ", "STRING_LAU")
+               for f in d["Fields"])
+
+
+def lau_bytes(kind, rng):
+    """bytes of one STRING_LAU field; None = the payload ends here"""
+    t = bytes(rng.choice(b"ABCdef 123") for _ in range(rng.randrange(1, 9)))
+    u = rng.choice(U16_TEXTS)
+    if kind == "ascii":
+        return bytes([len(t) + 2, 1]) + t
+    if kind == "utf16":
+        e = u.encode("utf-16-le")
+        return bytes([len(e) + 2, 0]) + e
+    if kind == "utf16bom":
+        e = b"\xff\xfe" + u.encode("utf-16-le")
+        return bytes([len(e) + 2, 0]) + e
+    if kind == "utf16be":
+        e = b"\xfe\xff" + u.encode("utf-16-be")
+        return bytes([len(e) + 2, 0]) + e
+    if kind == "utf16odd":
+        e = u.encode("utf-16-le") + b"Q"
+        return bytes([len(e) + 2, 0]) + e
+    if kind == "empty1":
+        return bytes([2, 1])
+    if kind == "empty0":
+        return bytes([2, 0])
+    if kind == "n0":
+        return bytes([0, 1]) + t
+    if kind == "n1":
+        return bytes([1, rng.choice([0, 1])]) + t
+    if kind == "past":      # announces more bytes than follow
+        return bytes([len(t) + 2 + rng.randrange(1, 40), 1]) + t
+    if kind == "past0":
+        e = u.encode("utf-16-le")
+        return bytes([len(e) + 2 + rng.randrange(1, 40), 0]) + e
+    if kind == "enc2":
+        return bytes([len(t) + 2, rng.choice([2, 7, 255])]) + t
+    if kind == "nul":
+        e = t[:2] + b"\x00" * rng.randrange(1, 4)
+        return bytes([len(e) + 2, 1]) + e
+    if kind == "invalid":   # bytes that are not UTF-8 on their own (dropped by errors='ignore')
+        e = bytes(rng.choice(b"AB\x80\xbf\xc0\xc1\xf5\xff") for _ in range(rng.randrange(1, 8)))
+        return bytes([len(e) + 2, 1]) + e
+    return None
+
+
+def lz_bytes(kind, rng):
+    t = bytes(rng.choice(b"ABCdef 123") for _ in range(rng.randrange(1, 9)))
+    if kind == "text":
+        return bytes([len(t)]) + t + b"\x00"
+    if kind == "zero":
+        return b"\x00\x00"
+    if kind == "past":
+        return bytes([len(t) + rng.randrange(1, 40)]) + t
+    if kind == "noterm":
+        return bytes([len(t)]) + t + b"XY"
+    if kind == "invalid":
+        e = bytes(rng.choice(b"AB\x80\xbf\xc0\xf5\xff") for _ in range(rng.randrange(1, 8)))
+        return bytes([len(e)]) + e + b"\x00"
+    return None
+
+
+def compose_var(d, rng, kinds=None, blf=None, cut=None, mode="inrange", raw=None):
+    """payload for a variable-layout definition, laid out consecutively as canboat prescribes.
+    kinds: field index -> string kind; blf: value for the field a BitLengthField names; cut: the payload ends before
+    field number cut; raw: field index -> raw bits"""
+    kinds, raw = kinds or {}, raw or {}
+    p, off = 0, 0
+    blf_idx = {f["BitLengthField"] - 1: i for i, f in enumerate(d["Fields"]) if "BitLengthField" in f}
+    announced = {}
+    for i, f in enumerate(d["Fields"]):
+        if cut is not None and i >= cut:
+            break
+        if "BitOffset" in f:
+            off = f["BitOffset"]
+        t = f["FieldType"]
+        if t == "STRING_LAU" or (t == "STRING_LZ" and "BitLength" not in f) or (t == "STRING_LZ" and i in kinds):
+            b = (lau_bytes if t == "STRING_LAU" else lz_bytes)(kinds.get(i, "ascii" if t == "STRING_LAU" else "text"), rng)
+            if b is None:
+                break
+            p |= int.from_bytes(b, "little") << off
+            off += 8 * len(b) if "BitLength" not in f or t == "STRING_LAU" else f["BitLength"]
+        elif "BitLength" in f:
+            n = f["BitLength"]
+            if i in raw:
+                v = raw[i] & ((1 << n) - 1)
+            elif i in blf_idx and blf is not None:
+                v = blf & ((1 << n) - 1)
+                announced[blf_idx[i]] = v
+            elif "Match" in f:
+                v = f["Match"]
+            elif t in UNSUPPORTED or t in ("INDIRECT_LOOKUP", "BINARY", "BITLOOKUP", "RESERVED", "SPARE", "LOOKUP"):
+                v = rng.getrandbits(n)
+            elif mode == "random":
+                v = rng.getrandbits(n)
+            else:
+                v = in_range_raw(f, rng)
+                if i in blf_idx:
+                    announced[blf_idx[i]] = v
+            p |= v << off
+            off += n
+        elif t == "BINARY":
+            n = announced.get(i, 16)
+            n = n if n < 4000 else 64
+            p |= rng.getrandbits(n + rng.choice([0, 0, 3, 8])) << off     # sometimes more bits than announced follow
+            off += n
+        else:
+            break
+    return p
+
+
+def var_layout_payloads(d, rng, n_indirect=10, n_mixed=2):
+    out = []
+    fs = d["Fields"]
+    lau = [i for i, f in enumerate(fs) if f["FieldType"] == "STRING_LAU"]
+    lz = [i for i, f in enumerate(fs) if f["FieldType"] == "STRING_LZ"]
+    blf = [i for i, f in enumerate(fs) if "BitLengthField" in f]
+    ind = [i for i, f in enumerate(fs) if f["FieldType"] == "INDIRECT_LOOKUP"]
+    if not supported(d):
+        return [("unsupported", compose_var(d, rng)), ("unsupported-zero", 0)]
+    for k in LAU_KINDS if lau else ():
+        tgt = rng.choice(lau)
+        kinds = {i: (k if i == tgt else rng.choice(("ascii", "utf16", "empty1"))) for i in lau}
+        out.append((f"lau:{k}@{tgt}", compose_var(d, rng, kinds)))
+    if len(lau) > 1:
+        for k in ("utf16", "empty0", "n0", "past"):
+            out.append((f"lau-all:{k}", compose_var(d, rng, {i: k for i in lau})))
+    for k in LZ_KINDS if lz else ():
+        out.append((f"lz:{k}", compose_var(d, rng, {i: k for i in lz})))
+    for i in blf:
+        lf = fs[fs[i]["BitLengthField"] - 1]
+        top = (1 << lf["BitLength"]) - 1
+        for v in (0, 1, 7, 8, 9, 13, 16, 31, 33, 64, top, top - 1, top - 2, rng.randrange(0, 200)):
+            out.append((f"blf:{v}", compose_var(d, rng, blf=v)))
+    for i in ind:
+        import json as _json
+        tbl = next(t for t in db()["LookupIndirectEnumerations"] if t["Name"] == fs[i]["LookupIndirectEnumeration"])
+        ref = fs[i]["LookupIndirectEnumerationFieldOrder"] - 1
+        pairs = [(e["Value1"], e["Value2"]) for e in tbl["EnumValues"]]
+        for _ in range(n_indirect):
+            v1, v2 = rng.choice(pairs) if rng.random() < 0.7 else (rng.getrandbits(7), rng.getrandbits(8))
+            out.append((f"indirect:{v1}_{v2}", compose_var(d, rng, raw={ref: v1, i: v2})))
+    for c in sorted({rng.randrange(1, len(fs) + 1) for _ in range(3)}):
+        out.append((f"cut:{c}", compose_var(d, rng, cut=c)))
+    out.append(("zero", 0))
+    out.append(("random", compose_var(d, rng, {i: rng.choice(LAU_KINDS) for i in lau}, mode="random")))
+    for _ in range(n_mixed):
+        out.append(("mixed", compose_var(d, rng, {i: rng.choice(LAU_KINDS[:-1]) for i in lau} | {i: rng.choice(LZ_KINDS[:-1]) for i in lz})))
+    return out
+
+
